@@ -27,7 +27,7 @@ VALS = {'nVersion': (1, 2), 'nLockTime': (0, 0x80000000), 'seq': (0xffffffff, 5)
         'nValue': (10, 20), 'spk': (b'\x51', b'\x52\x53')}
 
 EDITS = ['nVersion', 'nLockTime', 'vin0.seq', 'vin0.scriptSig', 'vin0.prevout.n', 'vin0.prevout.hash', 'vin0.prevout=new', 'vin1=new', 'vin.append', 'vin.pop',
-         'vout0.nValue', 'vout0.spk', 'vout0=new', 'vout.append', 'vout.pop', 'wit=new']
+         'vout0.nValue', 'vout0.spk', 'vout0=new', 'vout.append', 'vout.pop', 'wit=new', 'vin=newlist', 'vout=newlist', 'vin.insert0', 'vout.insert0']
 SNAPS = ['from_tx', 'ctor', 'block', 'txin', 'outpoint', 'txout', 'mfrom_tx', 'mtxin', 'moutpoint', 'mtxout', 'deser', 'ctor_mut']
 
 
@@ -63,7 +63,11 @@ class World:
             if kind == 'mtx':
                 m = self.models[k]
                 for e in EDITS:
-                    if e in ('vin.append', 'vin.pop', 'vin1=new') and m['wit'] is not None:
+                    if e in ('vin.append', 'vin.pop', 'vin1=new', 'vin=newlist', 'vin.insert0') and m['wit'] is not None:
+                        continue
+                    if e == 'vin.insert0' and len(m['vin']) >= 3:
+                        continue
+                    if e == 'vout.insert0' and len(m['vout']) >= 2:
                         continue
                     if e == 'vin.pop' and len(m['vin']) <= 1:
                         continue
@@ -144,6 +148,21 @@ class World:
             elif e == 'vout.pop':
                 m['vout'].pop()
                 o.vout.pop()
+            elif e == 'vin=newlist':
+                # the whole input list is replaced by a new list of new objects (same values, sequence toggled)
+                m['vin'] = [dict(i, seq=toggle('seq', i['seq']) if i['seq'] in VALS['seq'] else 5) for i in m['vin']]
+                o.vin = [CMutableTxIn(CMutableOutPoint(i['hash'], i['n']), CScript(i['script']), i['seq']) for i in m['vin']]
+            elif e == 'vout=newlist':
+                m['vout'] = [dict(x, value=toggle('nValue', x['value']) if x['value'] in VALS['nValue'] else 10) for x in m['vout']]
+                o.vout = [CMutableTxOut(x['value'], CScript(x['script'])) for x in m['vout']]
+            elif e == 'vin.insert0':
+                new = {'hash': H1, 'n': 3, 'script': b'', 'seq': 0xffffffff}
+                m['vin'].insert(0, new)
+                o.vin.insert(0, CMutableTxIn(CMutableOutPoint(new['hash'], new['n']), CScript(new['script']), new['seq']))
+            elif e == 'vout.insert0':
+                new = {'value': 10, 'script': b'\x51'}
+                m['vout'].insert(0, new)
+                o.vout.insert(0, CMutableTxOut(new['value'], CScript(new['script'])))
             elif e == 'wit=new':
                 if m['wit'] is None:
                     m['wit'] = [[b'w']] + [[] for _ in m['vin'][1:]]
